@@ -367,74 +367,88 @@ fn c32_check(ri: usize, k: u32, pi: usize, wi: usize, thorough: bool) -> (bool, 
                 out.push((c.to_string(), format!("{name} duration={k}/{rate} pads=({},{})/rate: {d}", PADS[pi].0, PADS[pi].1)))
             }
         };
-        let base = CommonBuiltinParameters::<Concrete> { duration, scale: None, phase: None, detuning: None };
-        let s0 = match w.iq_values_at_sample_rate(base, rate) {
-            Err(e) => {
-                add("aligned-duration-rejected", format!("{e:?}"));
-                return (false, out);
-            }
-            Ok(s) => vals(s),
-        };
-        let want = ((duration * rate).round() as usize) + if *padded { (pl * rate).ceil() as usize + (pr * rate).ceil() as usize } else { 0 };
-        if s0.len() != want {
-            add("sample-count", format!("{} samples, expected {want}", s0.len()));
-        }
-        let scales: &[f64] = if thorough { &[0.0, 0.5, -2.0, 1.0, 3.25] } else { &[0.0, 0.5, -2.0, 1.0] };
-        let phases: &[f64] = if thorough { &[0.0, 0.25, -0.125, 0.5, 1.0 / 3.0] } else { &[0.0, 0.25, -0.125] };
-        let wp: BuiltinWaveform<Partial<Concrete>> = match w.clone().try_evaluate::<Partial<Concrete>, ()>(|r| Ok(Some(r)), |c| Ok(Some(c))) {
-            Ok(x) => x,
-            Err(_) => {
-                add("partial-conversion", "cannot lift the concrete waveform to its partial form".into());
-                return (true, out);
-            }
-        };
-        for &sc in scales {
-            for &ph in phases {
-                let c = CommonBuiltinParameters::<Concrete> { duration, scale: Some(sc), phase: Some(Cycles(ph)), detuning: None };
-                let s = match w.iq_values_at_sample_rate(c, rate) {
-                    Ok(s) => vals(s),
-                    Err(e) => {
-                        add("error-with-scale-phase", format!("{e:?}"));
-                        continue;
-                    }
-                };
-                let rot = C::cis(2.0 * std::f64::consts::PI * ph);
-                let exp: Vec<C> = s0.iter().map(|z| z * sc * rot).collect();
-                if !close(&exp, &s, 1e-12) {
-                    add("linearity", format!("scale={sc} phase={ph}: first sample {:?}, expected {:?}", s.first(), exp.first()));
+        // detuning: absent, explicitly zero (must equal absent), and a quarter of the sample rate; every
+        // metamorphic clause below is relative to the unit-scale, zero-phase samples *at the same detuning*
+        let mut undetuned: Option<Vec<C>> = None;
+        for det in [None, Some(0.0), Some(0.25 * rate)] {
+            let base = CommonBuiltinParameters::<Concrete> { duration, scale: None, phase: None, detuning: det };
+            let s0 = match w.iq_values_at_sample_rate(base, rate) {
+                Err(e) => {
+                    add("aligned-duration-rejected", format!("{e:?}"));
+                    return (false, out);
                 }
-                if sc == 0.0 && s.iter().any(|z| z.norm() != 0.0) {
-                    add("zero-scale", format!("{:?}", s.first()));
+                Ok(s) => vals(s),
+            };
+            let want = ((duration * rate).round() as usize) + if *padded { (pl * rate).ceil() as usize + (pr * rate).ceil() as usize } else { 0 };
+            if s0.len() != want {
+                add("sample-count", format!("{} samples, expected {want}", s0.len()));
+            }
+            let scales: &[f64] = if thorough { &[0.0, 0.5, -2.0, 1.0, 3.25] } else { &[0.0, 0.5, -2.0, 1.0] };
+            let phases: &[f64] = if thorough { &[0.0, 0.25, -0.125, 0.5, 1.0 / 3.0] } else { &[0.0, 0.25, -0.125] };
+            let wp: BuiltinWaveform<Partial<Concrete>> = match w.clone().try_evaluate::<Partial<Concrete>, ()>(|r| Ok(Some(r)), |c| Ok(Some(c))) {
+                Ok(x) => x,
+                Err(_) => {
+                    add("partial-conversion", "cannot lift the concrete waveform to its partial form".into());
+                    return (true, out);
                 }
-                let known = CommonBuiltinParameters::<Partial<Concrete>> { duration, scale: Some(Some(sc)), phase: Some(Cycles(Some(ph))), detuning: None };
-                match wp.partial_iq_values_at_sample_rate(known, rate) {
-                    Ok(IqSamplesOrPlaceholder::Samples(x)) => {
-                        if !close(&vals(x), &s, 0.0) {
-                            add("partial-known-differs", "partial API with every parameter known gives other samples than the concrete API".into());
+            };
+            for &sc in scales {
+                for &ph in phases {
+                    let c = CommonBuiltinParameters::<Concrete> { duration, scale: Some(sc), phase: Some(Cycles(ph)), detuning: det };
+                    let s = match w.iq_values_at_sample_rate(c, rate) {
+                        Ok(s) => vals(s),
+                        Err(e) => {
+                            add("error-with-scale-phase", format!("{e:?}"));
+                            continue;
                         }
+                    };
+                    let rot = C::cis(2.0 * std::f64::consts::PI * ph);
+                    let exp: Vec<C> = s0.iter().map(|z| z * sc * rot).collect();
+                    if !close(&exp, &s, 1e-12) {
+                        add("linearity", format!("scale={sc} phase={ph}: first sample {:?}, expected {:?}", s.first(), exp.first()));
                     }
-                    Ok(IqSamplesOrPlaceholder::Placeholder(_)) => add("partial-known-placeholder", "partial API with every parameter known gives a placeholder".into()),
-                    Err(e) => add("partial-error", format!("{e:?}")),
-                }
-                for (what, unk) in [
-                    ("phase", CommonBuiltinParameters::<Partial<Concrete>> { duration, scale: Some(Some(sc)), phase: Some(Cycles(None)), detuning: None }),
-                    ("scale", CommonBuiltinParameters::<Partial<Concrete>> { duration, scale: Some(None), phase: Some(Cycles(Some(ph))), detuning: None }),
-                ] {
-                    match wp.partial_iq_values_at_sample_rate(unk, rate) {
+                    if sc == 0.0 && s.iter().any(|z| z.norm() != 0.0) {
+                        add("zero-scale", format!("{:?}", s.first()));
+                    }
+                    let known = CommonBuiltinParameters::<Partial<Concrete>> { duration, scale: Some(Some(sc)), phase: Some(Cycles(Some(ph))), detuning: det.map(Some) };
+                    match wp.partial_iq_values_at_sample_rate(known, rate) {
                         Ok(IqSamplesOrPlaceholder::Samples(x)) => {
-                            let v = vals(x);
-                            if !(what == "phase" && sc == 0.0 && v.len() == s.len() && v.iter().all(|z| z.norm() == 0.0)) {
-                                add("partial-unknown-gives-samples", format!("unknown {what} (scale={sc}) still gives samples"));
+                            if !close(&vals(x), &s, 0.0) {
+                                add("partial-known-differs", "partial API with every parameter known gives other samples than the concrete API".into());
                             }
                         }
-                        Ok(IqSamplesOrPlaceholder::Placeholder(p)) => {
-                            if p.sample_count() != s.len() {
-                                add("placeholder-length", format!("unknown {what}: placeholder of {} samples, concrete {}", p.sample_count(), s.len()));
-                            }
-                        }
+                        Ok(IqSamplesOrPlaceholder::Placeholder(_)) => add("partial-known-placeholder", "partial API with every parameter known gives a placeholder".into()),
                         Err(e) => add("partial-error", format!("{e:?}")),
                     }
+                    for (what, unk) in [
+                        ("phase", CommonBuiltinParameters::<Partial<Concrete>> { duration, scale: Some(Some(sc)), phase: Some(Cycles(None)), detuning: det.map(Some) }),
+                        ("scale", CommonBuiltinParameters::<Partial<Concrete>> { duration, scale: Some(None), phase: Some(Cycles(Some(ph))), detuning: det.map(Some) }),
+                    ] {
+                        match wp.partial_iq_values_at_sample_rate(unk, rate) {
+                            Ok(IqSamplesOrPlaceholder::Samples(x)) => {
+                                let v = vals(x);
+                                if !(what == "phase" && sc == 0.0 && v.len() == s.len() && v.iter().all(|z| z.norm() == 0.0)) {
+                                    add("partial-unknown-gives-samples", format!("unknown {what} (scale={sc}) still gives samples"));
+                                }
+                            }
+                            Ok(IqSamplesOrPlaceholder::Placeholder(p)) => {
+                                if p.sample_count() != s.len() {
+                                    add("placeholder-length", format!("unknown {what}: placeholder of {} samples, concrete {}", p.sample_count(), s.len()));
+                                }
+                            }
+                            Err(e) => add("partial-error", format!("{e:?}")),
+                        }
+                    }
                 }
+            }
+            match (&undetuned, det) {
+                (None, None) => undetuned = Some(s0.clone()),
+                (Some(u), Some(d)) if d == 0.0 => {
+                    if !close(u, &s0, 0.0) {
+                        add("zero-detuning-differs", "detuning 0.0 gives other samples than no detuning".into());
+                    }
+                }
+                _ => {}
             }
         }
         (true, out)
@@ -449,7 +463,7 @@ pub static C32: PropDef = PropDef {
     id: "C32",
     level: "exploration",
     engine: "sweep",
-    rule: "finite lattice: 9 built-in waveform instances (flat, gaussian, drag_gaussian, erf_square, hermite_gaussian, raised_cosine with rolloff 0 / 0.5 / 1, boxcar_kernel) x sample rate {1, 4, 1e9} x duration k/rate for k = 0..6 (thorough 0..48) x 8 (pad_left, pad_right) pairs in units of 1/rate incl. whole, one-sided fractional and both-sided fractional paddings (padded kinds) x scale {0, 0.5, -2, 1} x phase {0, 0.25, -0.125} (thorough 5 x 5), concrete and partial APIs with each of scale / phase known or unknown: sample count, linearity in scale, phase rotation, zero scale, placeholder length, partial == concrete once known. non-trivial = case that samples successfully",
+    rule: "finite lattice: 9 built-in waveform instances (flat, gaussian, drag_gaussian, erf_square, hermite_gaussian, raised_cosine with rolloff 0 / 0.5 / 1, boxcar_kernel) x sample rate {1, 4, 1e9} x duration k/rate for k = 0..6 (thorough 0..48) x 8 (pad_left, pad_right) pairs in units of 1/rate incl. whole, one-sided fractional and both-sided fractional paddings (padded kinds) x scale {0, 0.5, -2, 1} x phase {0, 0.25, -0.125} (thorough 5 x 5) x detuning {absent, 0, rate/4}, concrete and partial APIs with each of scale / phase known or unknown: sample count, linearity in scale, phase rotation (relative to the samples at the same detuning), zero scale, placeholder length, partial == concrete once known, detuning 0 == no detuning. non-trivial = case that samples successfully",
     assumptions: &["metamorphic oracle (no reference envelope); durations exactly aligned with the sample rate; a lattice, not all reals"],
     run: |ctx| {
         let thorough = ctx.tier == Tier::Thorough;
